@@ -6,6 +6,7 @@ import (
 	"encoding/hex"
 	"encoding/json"
 	"fmt"
+	"io"
 	"os"
 	"os/exec"
 	"testing"
@@ -93,7 +94,10 @@ func checkC19(c c19Case) string {
 			}
 		}
 	}
-	// 2. writer order: the five files are the same in any order
+	// 2. writer order: the five files are the same in any order, and after a write that used a per-call option
+	if len(c.Order) > 0 {
+		_ = c.Spec.build().WriteToTTML(io.Discard, astisub.WriteToTTMLWithIndentOption([]string{"\t", "  ", ""}[c.Order[0]%3]))
+	}
 	got, msg := writeAllAt(c.Spec.build(), c19NowA, c.Order)
 	if msg != "" {
 		return msg
